@@ -23,6 +23,9 @@ use std::collections::HashMap;
 use std::fs::File;
 use std::io::{BufRead, BufReader, BufWriter, Write};
 
+#[global_allocator]
+static ALLOC: panics::PerturbAlloc = panics::PerturbAlloc;
+
 fn arg_map(args: &[String]) -> HashMap<String, String> {
     let mut m = HashMap::new();
     let mut i = 0;
@@ -1241,8 +1244,39 @@ fn main() {
             let n: usize = a.get("n").and_then(|s| s.parse().ok()).unwrap_or(10);
             let len: usize = a.get("len").and_then(|s| s.parse().ok()).unwrap_or(200);
             let out = a.get("out").cloned().unwrap_or_else(|| ".".into());
+            if a.contains_key("race-child") {
+                for e in panics::race_child(a.get("threads").and_then(|s| s.parse().ok()).unwrap_or(8), a.contains_key("blocker")) {
+                    println!("{}", serde_json::to_string(&e).unwrap());
+                }
+                return;
+            }
             let mut evs = Vec::new();
-            panics::gen_panic(seed, n, len, &mut evs);
+            // `--raceonly`: --n counts fresh processes racing the first installation of the hook
+            let raceonly = a.contains_key("raceonly");
+            if !raceonly {
+                panics::gen_panic(seed, n, len, &mut evs);
+            }
+            let nrace: usize = if raceonly { n } else { a.get("race").and_then(|s| s.parse().ok()).unwrap_or(0) };
+            let exe = std::env::current_exe().unwrap();
+            for k in 0..nrace {
+                // two children out of three have a blocker thread (see panics::Gate)
+                let mut args = vec!["gen-panic", "--race-child", "--threads", a.get("threads").map(|s| s.as_str()).unwrap_or("8")];
+                if k % 3 != 2 {
+                    args.push("--blocker");
+                }
+                let o = std::process::Command::new(&exe).args(&args).output().unwrap();
+                for line in String::from_utf8_lossy(&o.stdout).lines() {
+                    if let Ok(e) = serde_json::from_str::<Value>(line) {
+                        evs.push(e);
+                    }
+                }
+                if !o.status.success() {
+                    evs.push(json!({"ev": "script", "t": 1, "script": ["panic"], "obs": [], "levels": [], "sent": 0, "status": "process-died", "race": true}));
+                }
+            }
+            for (k, e) in evs.iter_mut().enumerate() {
+                e["id"] = json!(k);
+            }
             write_ndjson::<Value>(&format!("{out}/schemes.ndjson"), &[]);
             write_ndjson::<Value>(&format!("{out}/ctxs.ndjson"), &[]);
             write_ndjson(&format!("{out}/trace.ndjson"), &evs);
